@@ -12,7 +12,7 @@ PROP = "C18"
 RULE = (
     "(a) get_cursor_position on a scripted in_stream: reported row/col 1..10^6, 7-bit and 8-bit CSI, extra input before the report "
     "(keypresses, escape sequences, look-alike fragments such as ESC[12; ESC[1;2 digits lone ESC newlines - never a complete CSI n;m R), "
-    "trailing input after it, 0-3 OSErrors injected at generated read positions, extra_bytes_callback present/absent, stream "
+    "trailing input after it, 0-3 (a quarter of the cases each: a run of 4-70 consecutive, or 4-45 scattered) OSErrors injected at generated read positions, extra_bytes_callback present/absent, stream "
     "encodings utf-8/latin-1. Oracle: returns (row-1, col-1); callback gets exactly the extra bytes once, in order (or ValueError "
     "without callback); unread remainder == trailing input; exactly one ESC[6n written. (b) get_cursor_vertical_diff histories on "
     "the reference terminal: any starting top_usable_row, renders, vertical cursor movements d in -h..h, queries, movements and "
@@ -112,6 +112,8 @@ def run_pos(case, res):
         res.label("extra_with_esc_or_digits")
     if case.get("errors"):
         res.label("oserror_injected")
+        if len(case["errors"]) > 10:
+            res.label("more_than_10_failing_reads")
     if trailing:
         res.label("trailing_input")
     if case["csi"] == "8bit":
@@ -309,7 +311,14 @@ def strategy():
             "extra": st.one_of(st.just(""), extra, extra, extra,
                                st.tuples(extra, st.sampled_from([60, 200, 400]), extra).map(lambda t: t[0] + "k" * t[1] + t[2])),
             "trailing": st.one_of(st.just(""), st.lists(st.sampled_from(FRAGS + ["\x1b[3;4R"]), max_size=3).map("".join)),
-            "errors": st.lists(st.integers(0, 30), max_size=3, unique=True),
+            # "any number of times": mostly a few, but also a long run of failing reads before one succeeds and many
+            # single failures spread over the characters of one query
+            "errors": st.one_of(
+                st.lists(st.integers(0, 30), max_size=3, unique=True),
+                st.lists(st.integers(0, 30), max_size=3, unique=True),
+                st.builds(lambda a, n: list(range(a, a + n)), st.integers(0, 20), st.integers(4, 70)),
+                st.lists(st.integers(0, 80), min_size=4, max_size=45, unique=True),
+            ),
             "callback": st.sampled_from([True, True, False]),
             "encoding": st.sampled_from(["utf-8", "latin-1"]),
             "nested_first": st.sampled_from([False, False, False, True]),
